@@ -16,6 +16,67 @@ def St.init : St := ⟨Heap.empty, [], [], [], []⟩
 
 def find (t : List (Nat × Nat)) (n : Nat) : Option Nat := (t.find? (·.1 = n)).map (·.2)
 
+/-! JSON values on the wire: tokens joined by `|`: `N` `T` `F` `I<int>` `S<cps>` `A<n>` (n values
+follow) `O<n>` (n times `K<cps>` and a value follow). -/
+
+mutual
+def parseJ : Nat → List String → Option (J × List String)
+  | 0, _ => none
+  | fuel + 1, t :: ts =>
+    if t = "N" then some (.null, ts) else if t = "T" then some (.bool true, ts)
+    else if t = "F" then some (.bool false, ts)
+    else if t.startsWith "I" then (parseInt (t.drop 1).toString).map fun n => (.num n, ts)
+    else if t.startsWith "S" then (parseCps (t.drop 1).toString).map fun c => (.str c, ts)
+    else if t.startsWith "A" then
+      match (t.drop 1).toString.toNat? with
+      | some n => (parseJL fuel false n ts).map fun r => (.arr r.1, r.2)
+      | none => none
+    else if t.startsWith "O" then
+      match (t.drop 1).toString.toNat? with
+      | some n => (parseJL fuel true n ts).map fun r => (.obj r.1, r.2)
+      | none => none
+    else none
+  | _, [] => none
+def parseJL : Nat → Bool → Nat → List String → Option (JL × List String)
+  | 0, _, _, _ => none
+  | _ + 1, _, 0, ts => some (.nil, ts)
+  | fuel + 1, false, n + 1, ts =>
+    match parseJ fuel ts with
+    | some (v, ts') => (parseJL fuel false n ts').map fun r => (.cons [] v r.1, r.2)
+    | none => none
+  | fuel + 1, true, n + 1, t :: ts =>
+    if t.startsWith "K" then
+      match parseCps (t.drop 1).toString, parseJ fuel ts with
+      | some k, some (v, ts') => (parseJL fuel true n ts').map fun r => (.cons k v r.1, r.2)
+      | _, _ => none
+    else none
+  | _ + 1, true, _ + 1, [] => none
+end
+
+def parseJson (s : String) : Option J :=
+  let ts := s.splitOn "|"
+  match parseJ (2 * ts.length + 2) ts with
+  | some (v, []) => some v
+  | _ => none
+
+mutual
+def showJ : J → List String
+  | .null => ["N"]
+  | .bool true => ["T"]
+  | .bool false => ["F"]
+  | .num n => ["I" ++ toString n]
+  | .str s => ["S" ++ showCps s]
+  | .arr l => ("A" ++ toString l.length) :: showJL false l
+  | .obj kv => ("O" ++ toString kv.length) :: showJL true kv
+  | .raw => ["R"]
+def showJL : Bool → JL → List String
+  | _, .nil => []
+  | false, .cons _ v r => showJ v ++ showJL false r
+  | true, .cons k v r => ("K" ++ showCps k) :: showJ v ++ showJL true r
+end
+
+def showJson (v : J) : String := "|".intercalate (showJ v)
+
 def parseAdapter (s : String) : Option Adapter :=
   match s.splitOn "/" with
   | ["p", p] => (parseCps p).map .pfx
@@ -23,6 +84,12 @@ def parseAdapter (s : String) : Option Adapter :=
   | ["c", i, p] => do some (mkClient b64enc (← parseCps i) (← parseCps p))
   | ["t", t] => (parseCps t).map mkToken
   | ["x", t] => (parseCps t).map .trace
+  | ["u", k] => (parseCps k).map .unwrap
+  | ["k"] => some .count
+  | ["f"] => some .compact
+  | ["z"] => some .nullify
+  | ["e", "q"] => some (.boom true)
+  | ["e", "r"] => some (.boom false)
   | _ => none
 
 def parseAdapters (s : String) : Option (List Adapter) :=
@@ -40,6 +107,7 @@ def parseTarget (st : St) (s : String) : Option Target :=
   | ["c", n] => do some (.conn (← find st.conns (← n.toNat?)))
   | ["s", a] => do some (.addr (← parseCps a) true true)
   | ["a", a, f] => do some (.addr (← parseCps a) false (f = "1"))
+  | ["d", a, f] => do some (.addr (← parseCps a) false (f = "1"))   -- dict form: same constructor arguments
   | _ => none
 
 def parseOwn (st : St) (s : String) : Option Own :=
@@ -57,7 +125,11 @@ def parseBody (s : String) : Option Body :=
   | ["n"] => some .none
   | ["b", b] => (parseNatList b).map .bytes
   | ["s", t] => (parseCps t).map .str
-  | ["j", f, d] => (parseCps d).map (.json (f = "1"))
+  | ["j", v] =>
+    match parseJson v with
+    | some (.str _) => none        -- a str body is `s=`
+    | some j => some (.json j)
+    | none => none
   | _ => none
 
 def parseVerb (s : String) : Option (Option Str) :=
@@ -76,9 +148,10 @@ def parseComps (s : String) : Option (Option (List Str)) :=
   else ((s.splitOn ";").mapM parseCps).map some
 
 def parseArgs (st : St) : List String → Option Args
-  | [verb, path, params, body, headers] => do
+  | [verb, path, params, body, headers, resp, raw] => do
     some { path := ← parseCps path, method := ← parseVerb verb, params := ← parseOptRef st.dicts params,
-           data := ← parseBody body, headers := ← parseOptRef st.dicts headers }
+           data := ← parseBody body, headers := ← parseOptRef st.dicts headers,
+           resp := ← (if resp = "E" then some none else (parseJson resp).map some), raw := raw = "1" }
   | _ => none
 
 def ltStr : Str → Str → Bool
@@ -99,17 +172,20 @@ def showHVal : HVal → String
   | .genId => "g"
 
 def showSent (s : Sent) (same : Bool) : String :=
+  match s.resp with
+  | .error e => "err " ++ e.name ++ " n=1" ++ (if same then "" else " same=0")
+  | .ok rv =>
   let hs := (sortDict s.headers).map fun kv => showCps kv.1 ++ ":" ++ showHVal kv.2
   "ok u=" ++ showCps s.url ++ " m=" ++ showCps s.method
     ++ " h=" ++ (if hs.isEmpty then "-" else ";".intercalate hs)
     ++ " d=" ++ (match s.body with | none => "n" | some b => showNatList b)
     ++ " id=" ++ (match s.genId with | none => "n" | some n => toString n)
-    ++ " r=" ++ (if s.resp.isEmpty then "-" else ";".intercalate (s.resp.map showCps))
+    ++ " r=" ++ showJson rv
     ++ " same=" ++ (if same then "1" else "0")
 
 /-- the caller's objects: dictionaries and adapter lists -/
-def userSnapshot (H : Heap) (upto : Heap) : List UDict × List (Option (List Adapter)) :=
-  (H.dicts.take upto.dicts.length, upto.userLists.map (H.lists[·]?))
+def userSnapshot (H : Heap) (upto : Heap) : List (Option Dict) × List (Option (List Adapter)) :=
+  (upto.userDicts.map (H.dicts[·]?), upto.userLists.map (H.lists[·]?))
 
 def exec (st : St) (op : Op) (bind : St → Nat → St) : St × String :=
   let (H', r) := step st.heap op
@@ -119,7 +195,11 @@ def exec (st : St) (op : Op) (bind : St → Nat → St) : St × String :=
   | .ok .unit => (st', "ok")
   | .ok (.ref n) => (bind st' n, "ok")
   | .ok (.sent s) => (st', showSent s same)
-  | .error e => (st', "err " ++ e.name ++ (if same then "" else " same=0"))
+  | .error e =>
+    let sent := match op with
+      | .request .. | .call .. => " n=0"
+      | _ => ""
+    (st', "err " ++ e.name ++ sent ++ (if same then "" else " same=0"))
 
 def noBind (st : St) (_ : Nat) : St := st
 
